@@ -3,6 +3,7 @@
 # (seeded/<id>/patch.diff) is applied to a scratch worktree of /repo and the check of ITS OWN property is run at the
 # quick tier; every one of them must exit 1. One TSV row per change. Exit 0 iff all were detected.
 set -u
+. "$(cd "$(dirname "$0")" && pwd)/scratch_cache.sh"
 here=$(cd "$(dirname "$0")/.." && pwd); cd "$here"
 out=${1:-notes/seeded-regression.tsv}; shift 2>/dev/null
 ids=${*:-$(ls seeded)}
@@ -11,6 +12,7 @@ git -C /repo worktree add -q --detach "$wt" HEAD || exit 2
 mkdir -p "$(dirname "$out")"; : > "$out"
 miss=0
 for id in $ids; do
+  trim_scratch_cache
   p=${id%%-*}
   git -C "$wt" checkout -q -- . ; git -C "$wt" clean -fdq
   if ! git -C "$wt" apply "$here/seeded/$id/patch.diff" 2>/dev/null; then echo -e "$id\tPATCH-DOES-NOT-APPLY" >> "$out"; miss=$((miss+1)); continue; fi
